@@ -406,6 +406,46 @@ def cats_arg(c):
     return ','.join(c)
 
 
+_SHARED = {}
+SESSION_MISMATCHES = []        # drained by optprops.evaluate (own clause) or by engine._call (clause 'session')
+
+
+def _snapshot(options):
+    snap = {}
+    for k, v in sorted(vars(options).items()):
+        if isinstance(v, (set, frozenset)):
+            snap[k] = ('set', sorted(repr(x) for x in v))
+        elif isinstance(v, (list, tuple)):
+            snap[k] = ('seq', [repr(x) for x in v])
+        else:
+            snap[k] = ('val', repr(v))
+    return snap
+
+
+def long_lived(kp, doc, kw):
+    """the same export through ONE Exporter object that lives as long as this worker process (it has served every earlier
+    document and option set), with options built the way dumps builds them -> (outcome, the fields of the caller's
+    options object the export changed).  None when kernpy no longer offers these entry points."""
+    try:
+        from kernpy.core.generic import Generic
+        exporter = _SHARED.get('exporter')
+        if exporter is None:
+            exporter = _SHARED['exporter'] = kp.Exporter()
+        kw2 = dict(kw)
+        if 'encoding' in kw2:
+            kw2['kern_type'] = kw2.pop('encoding')
+        options = Generic.parse_options_to_ExportOptions(**kw2)
+    except (ImportError, AttributeError, TypeError):
+        return None
+    before = _snapshot(options)
+    try:
+        got = 'ok:' + exporter.export_string(doc, options)
+    except Exception as e:
+        got = 'err:' + type(e).__name__
+    after = _snapshot(options)
+    return got, sorted(k for k in set(before) | set(after) if before.get(k) != after.get(k))
+
+
 def impl_dumps(kp, doc, *, spine_types=None, include=None, exclude=None, from_measure=None, to_measure=None,
                encoding=None, spine_ids=None):
     TC = kp.TokenCategory
@@ -425,9 +465,21 @@ def impl_dumps(kp, doc, *, spine_types=None, include=None, exclude=None, from_me
     if spine_ids is not None:
         kw['spine_ids'] = list(spine_ids)
     try:
-        return 'ok:' + kp.dumps(doc, **kw)
+        out = 'ok:' + kp.dumps(doc, **kw)
     except Exception as e:
-        return 'err:' + type(e).__name__
+        out = 'err:' + type(e).__name__
+    # every export is also made through the long-lived Exporter of this process: the same result, the options untouched
+    ll = long_lived(kp, doc, kw)
+    if ll is not None and len(SESSION_MISMATCHES) < 3:
+        got, changed = ll
+        o = {k: (sorted(c.name for c in v) if k in ('include', 'exclude') else (v.value if k == 'encoding' else v)) for k, v in kw.items()}
+        if got != out:
+            SESSION_MISMATCHES.append((f'options {o}: an Exporter object that has served earlier exports gives another result than a fresh one '
+                                       f'({got[:3]}... / {out[:3]}...)', {'options': o, 'session': 'long-lived exporter'}))
+        elif changed:
+            SESSION_MISMATCHES.append((f'options {o}: the export changed the caller\'s ExportOptions object (fields {changed})',
+                                       {'options': o, 'session': 'options snapshot'}))
+    return out
 
 
 def model_dumps_req(bad, text, *, spine_types=None, include=None, exclude=None, from_measure=None, to_measure=None,
